@@ -2607,9 +2607,9 @@ int bufr_load_csv_tableB( BUFR_Tables *tables, const char *filename )
          char buf[1024];
   
          if (tbls->tableB != NULL)
-            sprintf( buf, _("Info:  Loaded Table B: %s  \n"), filename );
+            snprintf( buf, sizeof(buf), _("Info:  Loaded Table B: %s  \n"), filename );
 	 else
-            sprintf( buf, _("Error:  Unable to load CSV Table B: %s  \n"), filename );
+            snprintf( buf, sizeof(buf), _("Error:  Unable to load CSV Table B: %s  \n"), filename );
          bufr_print_debug( buf );
          }
       }
@@ -2624,7 +2624,7 @@ int bufr_load_csv_tableB( BUFR_Tables *tables, const char *filename )
          {
          char buf[1024];
 
-         sprintf( buf, _("Info:  Merged Table B: %s  version=%d\n"), filename, tbls->version );
+         snprintf( buf, sizeof(buf), _("Info:  Merged Table B: %s  version=%d\n"), filename, tbls->version );
          bufr_print_debug( buf );
          }
       }
